@@ -15,7 +15,7 @@ def rules_for(prop):
         g = P(f, **kw)
         return g
     table = {
-        "C01": [ag.rule_ag1, ag.rule_ag2, ag.rule_ag3_small, scan.rule_sc1, scan.rule_sd2, tm.rule_tm4, st.rule_st5, seq.rule_fw2],
+        "C01": [ag.rule_ag1, ag.rule_ag2, ag.rule_ag3_small, ag.rule_ag3_map_filter, ag.rule_ag3_do_action, scan.rule_sc1, scan.rule_sd2, tm.rule_tm4, st.rule_st5, seq.rule_fw2],
         "C02": st.RULES + [ms.rule_ms, tm.rule_tm5, scan.rule_sd1],
         "C03": mx.RULES,
         "C04": [named(grp.rule_eq1, files=("rxsci/operators/group_by.py", "rxsci/state/memory_store.py", "rxsci/state/store.py",
@@ -59,11 +59,11 @@ EXPLANATION = {
     "C01": _COMMON + "Decided clauses: AG-1 every operator documented as dual-mode has a mux arm or is composed only of dual-mode rxsci "
            "operators (RxPY operators only in plain arms); AG-2 both arms of each of the 13 dispatch sites receive the same user parameters; "
            "AG-3 the operators implemented twice in the repo (scan, flat_map, assert_1, tee_map join) have equal per-item / completion "
-           "skeletons; AG-3b unset markers of siblings; FW-2 first/take/last emit what their list definition (and RxPY) says; SC-1 fold skeleton of scan; TM-4 and ST-5 tee_map join skeleton and reset of the join slots at the end of a key (state left over for the next key served by the same index makes the two arms disagree). Not decided: that a *_mux body equals the RxPY operator of the plain arm.",
+           "skeletons; AG-3b unset markers of siblings; AG-3m map / filter on a MuxObservable apply the user function to the item exactly once, map emits its result in place, filter keeps the item iff the result is truthy (as rx.operators.filter); AG-3d do_action on a MuxObservable runs each callback exactly once for the events of its kind (on_next on the item, on_error on the error), before forwarding the event unchanged; SD-2 a scan seeded with an int / bool literal never accumulates in a fixed-width store; FW-2 first/take/last emit what their list definition (and RxPY) says; SC-1 fold skeleton of scan; TM-4 and ST-5 tee_map join skeleton and reset of the join slots at the end of a key (state left over for the next key served by the same index makes the two arms disagree). Not decided: that a *_mux body equals the RxPY operator of the plain arm.",
     "C02": _COMMON + "Decided clauses: ST-1 mux handlers write no closure data outside the Probe branch; ST-2 every state id is add_key'd "
            "on every creation path; ST-3 indices used during a lifetime are included in those initialised at creation (affine index sets "
            "key[0], key[0]*D+[0,D)); ST-4 no use after del_key; ST-5 tee_map join table reset covers the slots written; ST-6 injective child "
-           "indices; WC-1 frame condition on the store (by reachability from the mux handlers); MS-1..5 add_key/del_key/set/get of the memory store (re-initialisation at creation); TM-5 join table growth; SD-1 the scan seed reaches per-key state only through seed() / deepcopy(seed). Not decided: values; user closures.",
+           "indices; ST-7 state defaults handed to the store are immutable (a mutable default would be shared by every key); WC-1 frame condition on the store (by reachability from the mux handlers); MS-1..5 add_key/del_key/set/get of the memory store (re-initialisation at creation); TM-5 join table growth; SD-1 the scan seed reaches per-key state only through seed() / deepcopy(seed). Not decided: values; user closures.",
     "C03": _COMMON + "Per-operator protocol preservation for the 32 MuxObservable construction sites: MX-1..4 per-kind lifecycle "
            "obligations, LV typestate of child keys in the five grouping heads (ghost state P = liveness downstream, S = liveness recorded in "
            "the store, invariant S = P while the parent is live), MX-5 sandwich and demux, MX-6 root, MX-7 tee_map de-duplication, MX-8 "
@@ -85,13 +85,13 @@ EXPLANATION = {
            "shared by all branches; TM-4 join skeleton per mode over the key's slice of n slots; TM-5 table growth to (key[0]+1)*n; ST-5 join table reset; MX-7 lifecycle "
            "de-duplication; AG-3 mux and plain joins agree. Not decided: behaviour of the branches themselves.",
     "C09": _COMMON + "Decided clauses: SD-1 the seed reaches accumulator/terminator/state/output only through seed() or deepcopy(seed) "
-           "(13 scan call sites classified); SC-1 fold skeleton per (reduce, terminator); AG-3 scan_mux = scan_obs skeletons; PU-1 "
+           "(13 scan call sites classified); SD-2 typed state of literal seeds; SC-1 fold skeleton per (reduce, terminator); SC-2 count adds exactly 1 per item whatever the item, to_list / to_array append the item itself once and return the collection; AG-3 scan_mux = scan_obs skeletons; PU-1 "
            "accumulators do not mutate items or free state and mappers downstream of a scan do not mutate the live accumulator.",
     "C10": _COMMON + "Decided clauses: FW-2 per-path emission multiplicity and bookkeeping of first, take (countdown > 0, minus exactly 1), "
-           "last, pad_start/pad_end, start_with, lag(1)/lag(n), distinct; DP-6 batch flag is len(batch) == batch_size on every path and the "
+           "last, pad_start/pad_end (one padding item per element of range(size)), start_with, lag(1)/lag(n) and the dispatch between them, distinct; OPT-1 an explicit falsy padding value pads like any other explicit value (only 'is None' means not given); DP-6 batch flag is len(batch) == batch_size on every path, a new list holding only the item is started exactly after a complete batch, and the "
            "terminator flags the pending list exactly when it was not already emitted and is not empty; DP-8 seed slots compared by value are private markers; SO-1 sort delegates to one stable sorted(items, key=key, reverse=reverse); EQ-1.",
     "C11": _COMMON + "Decided clauses: PR-1 no scheduler/timer/thread call outside the three sources and every emission is made inside a "
-           "handler; PR-2 the set of completion-time emitters is exactly scan(reduce/terminator), last, pad_end (plus named plain codecs); "
+           "handler; PR-2 the set of completion-time emitters is exactly scan(reduce/terminator), last, pad_end (plus named plain codecs), and a streaming codec emits what it can decode / encode while the chunk is handled; "
            "PR-3 windows/segments are completed while their closing item is handled, and an item that restarts the time_split window "
            "completes the old window and creates the new one on the same path; DP-6 (exact batch flags); ST-1 (no buffering of items in closures).",
     "C12": _COMMON + "Decided clauses: NM-1 the update recurrences and output formulas of sum, mean, min, max, variance (Welford: the "
@@ -120,7 +120,7 @@ EXPLANATION = {
     "C19": _COMMON + "Decided clause: AG-7 for each compression setting the stage list of load_from_file(lines=True) is the reversed "
            "stage list of dump_to_file through the inverse table; compression tables, modes, encoding and newline defaults agree; plus the stage rules of C15 (line framing), C16 (codecs) and C17 (text codec) "
            "for the stages the pipeline is composed of.",
-    "C20": _COMMON + "Decided clauses: PU-2 the record builder carries no mutable free state into its result; stage order batch -> "
+    "C20": _COMMON + "Decided clauses: PU-2 the record builder carries no mutable free state into its result and transposes every row into every column in field order; stage order batch -> "
            "to_record -> writer with batch_size forwarded; writer closed before completion; loader emits every row of every batch before "
            "on_completed; DP-6 (batch). pyarrow is trusted.",
 }
